@@ -187,6 +187,13 @@ pub fn gen_binding_request(rng: &mut Rng) -> Vec<u8> {
         }
         4 | 5 => build(0x0001, &gen_id(rng, true), &[]),
         6 => build(0x0001, &gen_id(rng, true), &[(3, vec![0, 0, 0, 2])]),
+        7 | 8 => {
+            // RFC 5389 request with >= 256 attribute bytes (message length high byte non-zero)
+            let mut a = gen_attrs(rng, true);
+            let n = (rng.range(64, 120) * 4) as usize;
+            a.push((0x8022, rng.bytes(n)));
+            build(0x0001, &gen_id(rng, true), &a)
+        }
         _ => {
             let a = gen_attrs(rng, true);
             build(0x0001, &gen_id(rng, true), &a)
@@ -210,7 +217,10 @@ pub fn gen_non_request(rng: &mut Rng) -> Vec<u8> {
     if class == 0 && method == 1 {
         ty = 0x0101;
     }
-    let attrs = if rng.chance(1, 2) {
+    let attrs = if rng.chance(1, 4) {
+        // a CHANGE-REQUEST in a message that is not a binding request
+        vec![(3u16, vec![0, 0, 0, *rng.pick(&[2u8, 6])])]
+    } else if rng.chance(1, 2) {
         // a plausible response body
         let mut val = vec![0, 1];
         val.extend_from_slice(&rng.bytes(6));
